@@ -72,7 +72,7 @@ inductive PyExn where
   | UnicodeDecodeError | JSONDecodeError | OSError | FileNotFoundError
   | ValidationError | AwesomeVersionException | AwesomeVersionCompareException
   | LimitOverrunError | IncompleteReadError | CancelledError | MqttError
-  | RuntimeError | Exception
+  | RuntimeError | IndexError | Exception
   deriving DecidableEq, Repr
 
 /-- Kinds of marshmallow field the persistence schemas use. -/
